@@ -144,6 +144,9 @@ func carriesValue(op string) bool {
 
 func runLin(r *kit.Run, prop string, deque bool) {
 	nh := int64(r.Scale(3000, 300000))
+	if deque {
+		nh = int64(r.Scale(3000, 100000)) // Deque histories are ~20x slower (spinning waiters, DESIGN 3.3)
+	}
 	if r.Build != "plain" {
 		nh /= 10
 	}
@@ -188,6 +191,12 @@ func linHistory(r *kit.Run, prop string, deque bool, idx int64, rng *rand.Rand) 
 	clients := 3 + rng.IntN(4)
 	per := 4 + rng.IntN(7)
 	procs := kit.ProcsFor(idx)
+	if deque && procs == 1 {
+		// two Deque waiters on one condition variable wake each other in a
+		// tight loop; with one processor that loop starves everything else
+		// between preemption ticks (DESIGN 3.3) and a history takes seconds
+		procs = 2
+	}
 	var nextID byte = 1
 	plans := make([][]qin, clients)
 	yields := make([][]int, clients)
